@@ -28,7 +28,8 @@ LEVEL_TEXT = ("Partial proof (per-element theorems + sampling of real documents)
               "builder (_add_glyph, defs migration, attribute tidying). That part is explored on REAL picosvg/picosvgz/untouchedsvg/untouchedsvgz "
               "fonts: for each source, the glyph reached through cmap+GSUB must be covered by exactly one document record, that document must contain "
               "exactly one id=glyph<ID> element, and the element is sampled against the source with the reference SVG renderer (y down, baseline origin).")
-LEVEL_NOTE = "lxml serialisation, zlib, CSS var() support in consumers are out of scope. Trusted: Lean kernel, render.py (SVG 1.1 rules), pathops."
+LEVEL_NOTE = ("lxml serialisation, zlib, CSS var() support in consumers are out of scope. Trusted: Lean kernel, render.py (SVG 1.1 rules), pathops."
+              " Tie T': `map_viewbox_to_otsvg_space` is re-translated from color_glyph.py on every run and proved equal to the model (`map_otsvg_space_eq`).")
 TECHNIQUE = "Lean 4 proof of the placement / <use> / gradient-projection lemmas + reference-renderer sampling of real OT-SVG documents"
 ASSUMPTIONS = []
 
